@@ -1,9 +1,15 @@
-"""C03 -- engine traces validated against spec/QMC.tla (see qcheck.py)."""
+"""C03 -- engine traces validated against spec/QMC.tla (see qcheck.py); MultiContexts.tla (the statement lifted to a
+family of systems) replayed on the real MultiContexts (multictx.py)."""
 from qcheck import engine_check
 
 
 def run(tier):
-    return engine_check("C03", tier)
+    from multictx import multi_contexts_layer
+
+    rep = engine_check("C03", tier, finish=False)
+    s, _ = multi_contexts_layer(rep, tier)
+    rep.add(states=s)
+    return rep.finish()
 
 
 def replay(record):
